@@ -5,7 +5,7 @@
    are exactly the values Spec/Wire.v defines for those bytes, and FindTransaction stops at the
    first transaction its predicate selects. *)
 From BS Require Import Impl.Visit Impl.Access Ref.MetaDefs Proofs.ImplRefLeaf Proofs.ImplRefTx Proofs.Transfer Proofs.Entries
-  Proofs.SpecLemmas Proofs.RefSpec Proofs.SpecTransfer Proofs.ObjSpec Proofs.Interop.
+  Proofs.SpecLemmas Proofs.RefSpec Proofs.SpecTransfer Proofs.ObjSpec Proofs.Interop Proofs.Examples.
 Open Scope N_scope.
 
 (* Into<bitcoin::TxOut>: (amount, script without its length prefix) of the wire structure; the
@@ -44,3 +44,15 @@ Theorem C19_first_match_characterised : forall m d l, upto_first m d = Some l ->
 Proof. exact upto_first_spec. Qed.
 Theorem C19_no_match_characterised : forall m d, upto_first m d = None -> forall x, In x d -> is_tx x && m x = false.
 Proof. exact upto_first_none. Qed.
+
+(* non-vacuity: an output and an outpoint parsed at a non-zero offset with trailing bytes, converted *)
+Example C19_example :
+  match parse_txout (sl 2 (enc_txout ex_out1 ++ [x00])) with
+  | Ok pr => to_rb_txout (parsed pr) = Ok (5000000000, [x76; xa9; x14]) /\ bytes (remaining pr) = [x00]
+  | _ => False
+  end /\
+  match parse_outpoint (sl 9 (ai_txid ex_in2 ++ [xff; xff; xff; xff; x01])) with
+  | Ok pr => to_rb_outpoint (parsed pr) = Ok (repeat xaa 32, 4294967295)
+  | _ => False
+  end.
+Proof. split; vm_compute; repeat split. Qed.
